@@ -2,6 +2,7 @@ package main
 
 import (
 	"fmt"
+	"go/constant"
 	"go/token"
 	"go/types"
 	"strings"
@@ -144,6 +145,7 @@ func checkC01(p *Prog, res *Result, tier string) {
 	res.rule("C01-R7", "the index value carries the deletion flag exactly when the version record written with it is the deletion marker (also in the repair write, which re-plays either kind)", 4)
 	res.rule("C01-R8", "index and version records are written without an engine TTL, except by the classified Event create (C17-R5): a record that the engine removes by itself makes a later condition fail, or a create succeed, although no write intervened", 8)
 	res.rule("C01-R9", "a condition is reported as failed only for a failed condition: every package-level error variable is an error class of its own (none wraps another), so errors.Is(err, ErrCASFailed) on the write paths holds for failed compares only", 6)
+	res.rule("C01-R10", "the reader of the index record tells 'deleted' from 'live' the way the writers encode it - by the length of the record (8 bytes: revision; 9: revision and flag), never by the content of a revision byte", 2)
 	res.rule("C01-R6", "every engine evaluates CAS / PutIfNotExist atomically with the write: compare-before-write, one engine commit, memkv lock held from BeginBatchWrite to Commit (C11-R1/R2); the metrics wrapper forwards conditional operations unchanged (C11-R5)", 12)
 
 	// ---- R1 ----
@@ -400,6 +402,7 @@ func checkC01(p *Prog, res *Result, tier string) {
 
 	// ---- R9: 'failed condition' is a class of its own ----
 	checkSentinelIdentity(p, res, "C01-R9")
+	checkIndexReaderAgrees(p, res, "C01-R10")
 
 	// ---- R5: no deletes reachable from write entry points ----
 	entries := []*ssa.Function{}
@@ -726,4 +729,135 @@ func flagFollowsMarker(p *Prog, v ssa.Value, marker func(condFact) bool, depth i
 		}
 	}
 	return false
+}
+
+// checkIndexReaderAgrees: writer and reader of the index record agree on the deletion flag. The writers (C01-R7) encode
+// a revision in 8 bytes and append one byte for a deletion; the reader (coder.ParseRevision, whose answer guards the
+// create-over-tombstone branch, C01-R3) must therefore answer 'deleted' exactly where it has found the record to be 9
+// bytes long and 'live' where it has found 8 - a decision that looks at a byte of the record depends on the revision.
+func checkIndexReaderAgrees(p *Prog, res *Result, rule string) {
+	f := p.fn("pkg/backend/coder", "ParseRevision")
+	var prm *ssa.Parameter
+	for _, q := range f.Params {
+		if sl, ok := q.Type().Underlying().(*types.Slice); ok {
+			if b, ok := sl.Elem().Underlying().(*types.Basic); ok && b.Kind() == types.Byte {
+				prm = q
+			}
+		}
+	}
+	boolIdx, errIdx := -1, errorResultIndex(f.Signature)
+	for i := 0; i < f.Signature.Results().Len(); i++ {
+		if b, ok := f.Signature.Results().At(i).Type().Underlying().(*types.Basic); ok && b.Kind() == types.Bool {
+			boolIdx = i
+		}
+	}
+	if prm == nil || boolIdx < 0 || errIdx < 0 {
+		res.und(rule, funcName(f), p.pos(f.Pos()), "cannot identify the record parameter / the flag result / the error result of the index parser")
+		return
+	}
+	isLen := func(v ssa.Value) bool {
+		c, ok := resolve(v).(*ssa.Call)
+		if !ok {
+			return false
+		}
+		b, ok := c.Common().Value.(*ssa.Builtin)
+		return ok && b.Name() == "len" && resolve(c.Common().Args[0]) == ssa.Value(prm)
+	}
+	pinned := func(at *ssa.BasicBlock) (int64, bool) {
+		for _, cf := range localFacts(at) {
+			if cf.X == nil {
+				continue
+			}
+			x, y := cf.X, cf.Y
+			if isLen(y) {
+				x, y = y, x
+			}
+			k, isK := constInt(y)
+			if isLen(x) && isK && ((cf.Op == token.EQL && cf.Want) || (cf.Op == token.NEQ && !cf.Want)) {
+				return k, true
+			}
+		}
+		return 0, false
+	}
+	var judge func(v ssa.Value, at *ssa.BasicBlock, depth int) (string, bool)
+	judge = func(v ssa.Value, at *ssa.BasicBlock, depth int) (string, bool) {
+		v = resolve(v)
+		if phi, ok := v.(*ssa.Phi); ok && depth < 4 {
+			for i, e := range phi.Edges {
+				if why, ok := judge(e, phi.Block().Preds[i], depth+1); !ok {
+					return why, false
+				}
+			}
+			return "every alternative follows the length of the record", true
+		}
+		if k, ok := v.(*ssa.Const); ok && k.Value != nil && k.Value.Kind() == constant.Bool {
+			want := int64(8)
+			if constant.BoolVal(k.Value) {
+				want = 9
+			}
+			if n, ok := pinned(at); ok && n == want {
+				return fmt.Sprintf("answers %v where the record was found to be %d bytes long", constant.BoolVal(k.Value), want), true
+			}
+			return fmt.Sprintf("the parser answers deleted=%v on a path where it has not found the record to be %d bytes long: live index records are taken for deleted ones (a create succeeds over a live key) or deleted ones for live", constant.BoolVal(k.Value), want), false
+		}
+		if bo, ok := v.(*ssa.BinOp); ok {
+			x, y, op := bo.X, bo.Y, bo.Op
+			if isLen(y) {
+				x, y = y, x
+				switch op {
+				case token.LSS:
+					op = token.GTR
+				case token.LEQ:
+					op = token.GEQ
+				case token.GTR:
+					op = token.LSS
+				case token.GEQ:
+					op = token.LEQ
+				}
+			}
+			if k, isK := constInt(y); isLen(x) && isK {
+				if (op == token.EQL && k == 9) || (op == token.GTR && k == 8) || (op == token.GEQ && k == 9) {
+					return "the flag is the comparison of the record's length with the flagged length", true
+				}
+			}
+		}
+		// the flag byte itself, read where the record is known to have one (the writers append a zero byte)
+		if bo, ok := v.(*ssa.BinOp); ok && bo.Op == token.EQL {
+			x, y := resolve(bo.X), resolve(bo.Y)
+			if isZeroConst(x) {
+				x, y = y, x
+			}
+			if ld, ok := x.(*ssa.UnOp); ok && ld.Op == token.MUL && isZeroConst(y) {
+				if ia, ok := ld.X.(*ssa.IndexAddr); ok && resolve(ia.X) == ssa.Value(prm) {
+					idxOK := false
+					if k, isK := constInt(ia.Index); isK && k == 8 {
+						idxOK = true
+					}
+					if sub, ok := resolve(ia.Index).(*ssa.BinOp); ok && sub.Op == token.SUB && isLen(sub.X) {
+						if k, isK := constInt(sub.Y); isK && k == 1 {
+							idxOK = true
+						}
+					}
+					if n, ok := pinned(at); ok && n == 9 && idxOK {
+						return "the flag byte of a record found to be 9 bytes long", true
+					}
+				}
+			}
+		}
+		return "the parser decides 'deleted' from the content of the record instead of its length: for a live record the byte it looks at is a byte of the revision, so the answer depends on the revision (a live key whose revision ends in a zero byte reads as deleted and can be created over)", false
+	}
+	n := 0
+	for _, b := range f.Blocks {
+		ret, ok := b.Instrs[len(b.Instrs)-1].(*ssa.Return)
+		if !ok || b.Comment == "recover" || !isNilConst(resolve(ret.Results[errIdx])) {
+			continue
+		}
+		n++
+		construct := fmt.Sprintf("%s: deletion flag of successful return #%d", funcName(f), n)
+		if why, ok := judge(ret.Results[boolIdx], b, 0); ok {
+			res.ok(rule, construct, p.pos(ret.Pos()), why)
+		} else {
+			res.bad(rule, construct, p.pos(ret.Pos()), why)
+		}
+	}
 }
